@@ -60,7 +60,10 @@ impl ToTokens for ValuePopulator<'_> {
     fn to_tokens(&self, tokens: &mut proc_macro2::TokenStream) {
         let ForwardedField { ident, with } = self.0;
         let initializer_expr = match with {
-            Some(with) => quote_spanned!(with.span()=> __errors.handle(#with(__fwd_attrs))),
+            // The span only lends its location; `__errors` and `__fwd_attrs` must resolve at the
+            // macro's call site even when `with` reaches the receiver through a `macro_rules!` fragment.
+            Some(with) => quote_spanned!(with.span().resolved_at(proc_macro2::Span::call_site())=>
+                __errors.handle(#with(__fwd_attrs))),
             None => quote!(::darling::export::Some(__fwd_attrs)),
         };
         tokens.append_all(quote!(#ident = #initializer_expr;));
